@@ -79,3 +79,28 @@ fn h_w_recv_msg_interleaved() {
     got.extend(rt.block_on(s.recv_msg()).unwrap().to_vec());
     assert_eq!(got, queued.concat());
 }
+
+//# id=witness.parked_messages_order props=C02 kind=witness pair=sockrecv.SocketSession.receive_stored_messages.parked_messages_are_replayed_in_arrival_order,sockrecv.SocketSession.receive.accepted_message_is_appended_in_arrival_order,sockrecv.SocketSession.receive_stored_messages.safety
+// messages that arrive before the socket exists are handed over in arrival order, followed by later ones
+#[cfg(vx_replay)]
+#[test]
+fn h_w_parked_order() {
+    use super::super::socket_session::SocketSession;
+    let sess = Arc::new(SocketSession {
+        upstream: RwLock::new(None),
+        downstream: Arc::new(NullSession),
+        stored_messages: Default::default(),
+    });
+    for m in ["first ", "second ", "third "] {
+        sess.receive(Message::new(m)).unwrap();
+    }
+    let (tx, mut rx) = tokio::sync::mpsc::channel::<Message>(8);
+    *sess.upstream.write().unwrap() = Some(tx);
+    sess.clone().receive_stored_messages().unwrap();
+    sess.receive(Message::new("fourth")).unwrap();
+    let mut got = vec![];
+    while let Ok(m) = rx.try_recv() {
+        got.extend(m.to_vec());
+    }
+    assert_eq!(String::from_utf8(got).unwrap(), "first second third fourth");
+}
